@@ -142,4 +142,13 @@ func verifArenaPayloadFromOffset(arena *Arena, offset uint32) *nodePayload {
 }
 
 // randomHeight: the tower height of a new skiplist node is arbitrary in 1..2.
-func verifSkiplistRandomHeight(s *Skiplist) int { return 1 + sym.Int("skiplist_tower_height", 0, 1) }
+func verifSkiplistRandomHeight(s *Skiplist) int {
+	if VerifSkiplistHeightOne {
+		return 1
+	}
+	return 1 + sym.Int("skiplist_tower_height", 0, 1)
+}
+
+// VerifSkiplistHeightOne: kernels above the memtable index (C01/C02) do not
+// re-explore tower heights (C07 does).
+var VerifSkiplistHeightOne bool
